@@ -164,12 +164,12 @@ def disc_obligations(pid, d, mir_text, t_mir, info, add, violations, inconclusiv
     info["check_block"] = {}
     q = 0
     seen_kinds = set()
-    for name in ("bfs", "dfs"):
+    for name in ("bfs", "dfs", "on_demand"):
         if name not in cbs:
             raise Unsupported(f"{name}.rs check_block not found in the MIR")
         res, binfo = discloop.obligations(name, cbs[name], lib_rs, helpers=blockloop.find_helpers(mir_text, name))
         binfo["mir_sha256"] = hashlib.sha256(cbs[name].encode()).hexdigest()[:12]
-        if pid in ("C01", "C02"):
+        if pid in ("C01", "C02") and name != "on_demand":
             # every dequeued job is evaluated unless the depth limit says otherwise (obligation D1 of blockloop.py, shared with C12)
             dres, _ = blockloop.obligations(name, cbs[name], helpers=blockloop.find_helpers(mir_text, name))
             res = res + [dict(o, tag="C01,C02") for o in dres if "a popped job is skipped only" in o["obligation"]]
